@@ -214,6 +214,7 @@ inductive Verdict
   | errParams        -- ValidateConsensusParams
   | errMeta          -- nil / invalid block meta
   | errHeightMismatch -- the answer is labelled with another height than requested
+  | errRequest        -- a (possibly genuine) answer for another height / hash / range than requested
   | errTxMismatch     -- the proof is for other bytes than the returned transaction
   | errHashMismatch   -- the transaction / its label does not hash to the requested hash
   | errPage
@@ -231,16 +232,31 @@ def Block.validateBasic (b : Block) : Bool :=
   b.header.dataHash = TxProof.txsHash H b.txs &&
   b.evidenceOK && b.header.evidenceHash = evidenceHash H b.evidence
 
-/-- `Client.Block` / `Client.BlockByHash` after the backend answered `res`.
+/-- what the caller asked for: `Block(height)` (none = latest) or `BlockByHash(hash)` -/
+inductive BlockReq
+  | height (h : Option Int)
+  | hash (x : Bytes)
+deriving Repr
+
+/-- the request-binding guard of the repaired `Block` / `BlockByHash` -/
+def BlockReq.matches (req : BlockReq) (res : ResultBlock) (b : Block) : Bool :=
+  match req with
+  | .height none => true
+  | .height (some h) => b.header.height = h
+  | .hash x => res.blockID.hash = x
+
+/-- `Client.Block` / `Client.BlockByHash` after the backend answered `res` (as repaired: the answer
+must be for the requested height / hash).
 (`Block.Hash()` is `Header.Hash()` here: `fillHeader` only fills hashes that `ValidateBasic`
 has just compared with the computed ones.) -/
-def verifyBlock (lc : LC) (res : ResultBlock) : Verdict × LC :=
+def verifyBlock (lc : LC) (req : BlockReq) (res : ResultBlock) : Verdict × LC :=
   if !res.blockID.validateBasic then (.errBlockID, lc) else
   match res.block with
   | none => (.errBlock, lc)
   | some b =>
     if !b.validateBasic H then (.errBlock, lc) else
     if res.blockID.hash ≠ b.header.hash H then (.errIDMismatch, lc) else
+    if !req.matches res b then (.errRequest, lc) else
     match updateTo lc (some b.header.height) with
     | .err => (.errLC, lc)
     | .ok l lc' =>
@@ -270,17 +286,22 @@ def verifyMetas (lc : LC) : List (Option BlockMeta) → Verdict × LC
     | .ok t lc' =>
       if m.header.hash H ≠ t.header.hash H then (.errUntrusted, lc') else verifyMetas lc' rest
 
-/-- the first loop of `Client.BlockchainInfo`: a nil meta or one failing `ValidateBasic` -/
-def metaBad (m : Option BlockMeta) : Bool :=
-  match m with
-  | none => true
-  | some m => !m.validateBasic H
+/-- the first loop of `Client.BlockchainInfo` (as repaired), per meta in order: nil, `ValidateBasic`,
+and the height must lie in the requested range (`0` = that bound was not given) -/
+def checkMetas (minH maxH : Int) : List (Option BlockMeta) → Option Verdict
+  | [] => none
+  | none :: _ => some .errMeta
+  | some m :: rest =>
+    if !m.validateBasic H then some .errMeta
+    else if (minH > 0 ∧ m.header.height < minH) ∨ (maxH > 0 ∧ m.header.height > maxH) then some .errRequest
+    else checkMetas minH maxH rest
 
 /-- `Client.BlockchainInfo`; `none` in the list = nil meta. First every meta is validated, then the
 LAST meta's height (the lowest: the backend lists heights downwards) is verified, then each. -/
-def verifyBlockchainInfo (lc : LC) (metas : List (Option BlockMeta)) : Verdict × LC :=
-  if metas.any (metaBad H) then (.errMeta, lc)
-  else
+def verifyBlockchainInfo (lc : LC) (minH maxH : Int) (metas : List (Option BlockMeta)) : Verdict × LC :=
+  match checkMetas H minH maxH metas with
+  | some v => (v, lc)
+  | none =>
     match metas.getLast? with
     | some (some m) =>
       match updateTo lc (some m.header.height) with
@@ -391,10 +412,11 @@ def Params.validate (p : Params) : Bool :=
 def Params.hash (p : Params) : Bytes :=
   H (fVarint 0x08 (u64 p.maxBytes) ++ fVarint 0x10 (u64 p.maxGas))
 
-/-- `Client.ConsensusParams` -/
-def verifyParams (lc : LC) (blockHeight : Int) (p : Params) : Verdict × LC :=
+/-- `Client.ConsensusParams` (as repaired: the answer must be for the requested height, if one was given) -/
+def verifyParams (lc : LC) (req : Option Int) (blockHeight : Int) (p : Params) : Verdict × LC :=
   if !p.validate then (.errParams, lc) else
   if blockHeight ≤ 0 then (.errHeight, lc) else
+  if req.any (fun h => blockHeight ≠ h) then (.errRequest, lc) else
   match updateTo lc (some blockHeight) with
   | .err => (.errLC, lc)
   | .ok l lc' => if p.hash H ≠ l.header.consensusHash then (.errUntrusted, lc') else (.ok, lc')
